@@ -25,7 +25,7 @@ EXPLANATION = (
 
 
 def run(chk):
-    chk.explanation = EXPLANATION
+    chk.explanation = EXPLANATION + (" Sequences paired position by position (zip) must be enumerated in the same leg order (tensor-leg order vs native storage order; engine seqorder with helper summaries); the meta-fusion trees of each factor must come from the meta-leg group from which its native legs were unpacked.")
     chk.trusted_base = ["python ast parser", "CFG builder", "seed table of index spaces for API parameters (sa/props/e3.py SEEDS/CALLEES)"]
     chk.assumptions = ["untyped (literal) indices are not judged", "block pairing inside _meta_* functions is value-level and not decided"]
     e3.run_L1(chk)
